@@ -146,6 +146,26 @@ def sif_obj(c, a, b):
     return a if bool(c) else b
 
 
+def h_mixed_subgraders(E, order):
+    """ordered ListGrader whose subgraders are of different kinds (a SingleListGrader carries internal bookkeeping keys in its results): every returned
+    entry has exactly ok / grade_decimal / msg, whatever the order of the subgraders"""
+    import mitxgraders.baseclasses as B
+    from mitxgraders import ListGrader, SingleListGrader, StringGrader
+    T = {(e, s): E.real('g_%s_%s' % (e, s), 0, 1) for e in ('e0', 'e1', 'e2') for s in ('s0', 's1', 's2')}
+    TG = make_table_grader(T)
+    kinds = {'slg-then-item': [SingleListGrader(subgrader=TG()), TG()], 'item-then-slg': [TG(), SingleListGrader(subgrader=TG())],
+             'slg-item-slg': [SingleListGrader(subgrader=TG()), TG(), SingleListGrader(subgrader=TG())], 'item-slg-item': [TG(), SingleListGrader(subgrader=TG()), TG()]}[order]
+    answers = [['e0', 'e1'] if isinstance(k, SingleListGrader) else 'e2' for k in kinds]
+    inputs = ['s0, s1' if isinstance(k, SingleListGrader) else 's2' for k in kinds]
+    with shadow(B, float=sym_float):
+        r = ListGrader(answers=answers, subgraders=kinds, ordered=True)(None, inputs)
+    E.check('list-structure', set(r.keys()) == {'overall_message', 'input_list'} and len(r['input_list']) == len(kinds))
+    for ent in r['input_list']:
+        _entry_ok(E, ent)
+    _no_leak(E, _result_texts(r))
+    return 'ok'
+
+
 def h_list_length(E, kind, n_stu):
     """the number of submitted boxes is arbitrary: a ListGrader call either raises a library error or returns one well-formed entry per box, in box order"""
     import mitxgraders.baseclasses as B
@@ -344,6 +364,8 @@ def harnesses(tier):
     for cls in ('StringGrader', 'FormulaGrader'):
         for pinned in ('absent', 'computed', True, False, 'partial'):
             add(h_pinned_ok, 'pinned_ok', dict(cls=cls, pinned=pinned), 'answer credit any real in [0,1]')
+    for order in ('slg-then-item', 'item-then-slg', 'slg-item-slg', 'item-slg-item'):
+        add(h_mixed_subgraders, 'mixed_subgraders', dict(order=order), 'credits in [0,1]', max_paths=None if T else 300)
     for kind in LIST_LENGTH_KINDS:
         for n_stu in range(1, 7):
             add(h_list_length, 'list_length', dict(kind=kind, n_boxes=n_stu), '1..6 submitted boxes against 3 or 4 expected; credits in [0,1]', max_paths=None if T else 60)
